@@ -16,7 +16,8 @@ CONSTANTS N,          \* number of stages
           Cap,        \* pipe capacity
           DropParentCloseW,  \* mutant switch: parent forgets to close write end
           FailAt,            \* 0 = no fault; k = the k-th pipe() of run_pipeline fails with EMFILE
-          Capture            \* TRUE = output of the last stage is captured (command substitution)
+          Capture,           \* TRUE = output of the last stage is captured (command substitution)
+          CapReadMode        \* "sequential" = core.rs as pinned: stdout to EOF, then stderr; "concurrent" = both drained together
 
 Shell == 0
 Stages == 1..N
@@ -49,6 +50,7 @@ With(f, d, v) == [x \in Dom(f) \cup {d} |-> IF x = d THEN v ELSE f[x]]
 FdOf(f, o) == CHOOSE d \in Dom(f) : f[d] = o
 Has(f, o) == \E d \in Dom(f) : f[d] = o
 
+DropOfd(f, o) == [d \in {x \in Dom(f) : f[x] # o} |-> f[d]]
 Std == [x \in {0, 1, 2} |-> TTY]
 
 Init ==
@@ -57,7 +59,7 @@ Init ==
   /\ spc = IF N > 1 THEN <<"mkpipe", 1>> ELSE IF Capture THEN <<"mkcap", 0>> ELSE <<"fork", 1>>
   /\ cpc = [i \in Stages |-> "none"]
   /\ buf = [k \in AllPipes |-> 0]
-  /\ left = [i \in Stages |-> IF Kinds[i] = "prod" THEN Units ELSE 0]
+  /\ left = [i \in Stages |-> IF Kinds[i] \in {"prod", "eprod"} THEN Units ELSE 0]
   /\ got = [i \in Stages |-> 0]
   /\ status = [i \in Stages |-> "none"]
   /\ nextfd = 0
@@ -122,15 +124,26 @@ CapClose ==
   /\ fdt' = [fdt EXCEPT ![Shell] = [d \in {x \in Dom(@) : @[x] # W(CapO) /\ @[x] # W(CapE)} |-> @[d]]]
   /\ spc' = <<"capread", CapO>>
   /\ UNCHANGED <<alive, cpc, buf, left, got, status, nextfd, reaped>>
+CapDrain(k) == /\ Has(fdt[Shell], R(k)) /\ buf[k] > 0
+               /\ buf' = [buf EXCEPT ![k] = @ - 1] /\ UNCHANGED <<fdt, spc>>
+CapEof(k)   == /\ Has(fdt[Shell], R(k)) /\ buf[k] = 0
+               /\ ~(\E p \in Procs : alive[p] = "run" /\ Has(fdt[p], W(k)))
+               /\ fdt' = [fdt EXCEPT ![Shell] = DropOfd(fdt[Shell], R(k))]
+               /\ UNCHANGED <<buf, spc>>
+CapBothClosed == /\ ~Has(fdt[Shell], R(CapO)) /\ ~Has(fdt[Shell], R(CapE))
+                 /\ spc' = <<"wait", 0>> /\ UNCHANGED <<buf, fdt>>
 CapRead ==
   /\ spc[1] = "capread"
-  /\ LET k == spc[2] IN
-     IF buf[k] > 0
-     THEN buf' = [buf EXCEPT ![k] = @ - 1] /\ UNCHANGED <<fdt, spc>>
-     ELSE /\ ~\E p \in Procs : alive[p] = "run" /\ Has(fdt[p], W(k))      \* EOF, else blocked
-          /\ fdt' = [fdt EXCEPT ![Shell] = [d \in {x \in Dom(@) : @[x] # R(k)} |-> @[d]]]
-          /\ spc' = IF k = CapO THEN <<"capread", CapE>> ELSE <<"wait", 0>>
-          /\ UNCHANGED buf
+  /\ IF CapReadMode = "sequential"
+     THEN LET k == spc[2] IN
+          IF buf[k] > 0
+          THEN buf' = [buf EXCEPT ![k] = @ - 1] /\ UNCHANGED <<fdt, spc>>
+          ELSE /\ ~\E p \in Procs : alive[p] = "run" /\ Has(fdt[p], W(k))      \* EOF, else blocked
+               /\ fdt' = [fdt EXCEPT ![Shell] = [d \in {x \in Dom(@) : @[x] # R(k)} |-> @[d]]]
+               /\ spc' = IF k = CapO THEN <<"capread", CapE>> ELSE <<"wait", 0>>
+               /\ UNCHANGED buf
+     ELSE \* concurrent: a unit is taken from whichever capture pipe has one; an end is closed at its EOF
+          CapDrain(CapO) \/ CapDrain(CapE) \/ CapEof(CapO) \/ CapEof(CapE) \/ CapBothClosed
   /\ UNCHANGED <<alive, cpc, left, got, status, nextfd, reaped>>
 
 Wait(i) ==
@@ -261,6 +274,25 @@ FiltWrite(i) ==
      ELSE left' = [left EXCEPT ![i] = 0] /\ UNCHANGED <<buf, alive, fdt, status, cpc>>
   /\ UNCHANGED <<spc, got, nextfd, reaped>>
 
+\* a program that writes its units to standard error (diagnostics) instead of standard output
+StderrIsPipe(i) == 2 \in Dom(fdt[i]) /\ fdt[i][2][1] = "w"
+EProdWrite(i) ==
+  /\ cpc[i] = "prog" /\ Kinds[i] = "eprod" /\ left[i] > 0
+  /\ IF StderrIsPipe(i)
+     THEN LET k == fdt[i][2][2] IN
+          IF ~\E p \in Procs : alive[p] = "run" /\ Has(fdt[p], R(k))
+          THEN Die(i, "pipe") /\ UNCHANGED <<buf, left>>
+          ELSE /\ buf[k] < Cap
+               /\ buf' = [buf EXCEPT ![k] = @ + 1]
+               /\ left' = [left EXCEPT ![i] = @ - 1]
+               /\ UNCHANGED <<alive, fdt, status, cpc>>
+     ELSE left' = [left EXCEPT ![i] = @ - 1] /\ UNCHANGED <<buf, alive, fdt, status, cpc>>
+  /\ UNCHANGED <<spc, got, nextfd, reaped>>
+EProdExit(i) ==
+  /\ cpc[i] = "prog" /\ Kinds[i] = "eprod" /\ left[i] = 0
+  /\ Die(i, "ok")
+  /\ UNCHANGED <<spc, buf, left, got, nextfd, reaped>>
+
 EarlyExit(i) ==
   /\ cpc[i] = "prog" /\ Kinds[i] = "early"
   /\ Die(i, "ok")
@@ -271,7 +303,7 @@ Finished == spc[1] \in {"done", "failed"} /\ UNCHANGED vars
 Next ==
   \/ MkPipe \/ MkCapture \/ Fork \/ PCloseW \/ PCloseR \/ CapClose \/ CapRead
   \/ \E i \in Stages : Wait(i) \/ CLeft(i) \/ CRight(i) \/ CDupIn(i) \/ CDupIn2(i) \/ CDupOut(i) \/ CExec(i) \/ CCapture(i) \/ CCapDup(i)
-                       \/ ProdWrite(i) \/ ProdExit(i) \/ FiltRead(i) \/ FiltWrite(i) \/ EarlyExit(i)
+                       \/ ProdWrite(i) \/ ProdExit(i) \/ FiltRead(i) \/ FiltWrite(i) \/ EarlyExit(i) \/ EProdWrite(i) \/ EProdExit(i)
   \/ Finished
 
 Spec == Init /\ [][Next]_vars /\ WF_vars(Next)
